@@ -175,6 +175,27 @@ def run_C17(res, tier, seed, t_end, only_buffers=False, prop='C17'):
         if got != b'ab\xff\xfecd'.decode('utf-8', 'replace') or lst != [got, None]:
             res.add(finding('C17', 'encoding_errors_honoured', "encoding_errors='replace': GET gave %r, MGET %r" % (got, lst)))
             return
+        # every way redis-py offers to configure the codec reaches the connection: the deprecated aliases charset= / errors=, positional construction, from_url
+        srv_a = raw.connection_pool.connection_kwargs['server']
+        raw.execute_command('SET', 'lat', b'caf\xe9')
+        forms = []
+        with warnings.catch_warnings():
+            warnings.simplefilter('ignore')
+            forms.append(("charset='latin-1'", lambda: fakeredis.FakeStrictRedis(server=srv_a, charset='latin-1', decode_responses=True), 'lat', 'caf\xe9'))
+            forms.append(("errors='replace'", lambda: fakeredis.FakeStrictRedis(server=srv_a, errors='replace', decode_responses=True), 'bad', b'ab\xff\xfecd'.decode('utf-8', 'replace')))
+            forms.append(("errors='ignore'", lambda: fakeredis.FakeStrictRedis(server=srv_a, errors='ignore', decode_responses=True), 'bad', 'abcd'))
+            forms.append(("encoding='latin-1'", lambda: fakeredis.FakeStrictRedis(server=srv_a, encoding='latin-1', decode_responses=True), 'lat', 'caf\xe9'))
+            forms.append(("from_url encoding", lambda: fakeredis.FakeStrictRedis.from_url('redis://localhost/0', server=srv_a, encoding='latin-1', decode_responses=True), 'lat', 'caf\xe9'))
+            for label, mk, key, want in forms:
+                try:
+                    got = mk().get(key)
+                except Exception as e:      # noqa
+                    got = repr(e)
+                res.evaluations += 1
+                res.cells.add(('codec-config', label))
+                if got != want:
+                    res.add(finding('C17', 'codec_configuration_honoured', 'FakeStrictRedis(%s, decode_responses=True).get(%r) gave %r, expected %r' % (label, key, got, want)))
+                    return
         # pipelines and transactions keep the bytes
         blob = bytes(rng.randrange(256) for _ in range(rng.choice([1, 10, 1000])))
         p = raw.pipeline(transaction=rng.random() < 0.5)
@@ -591,6 +612,36 @@ def run_C14(res, tier, seed, t_end):
     if got_s != [b'm1', b'm2', b'm3', b'm4', b'm5'] or none_s is not None or waited_s < 0.05:
         res.add(finding('C14', 'sync_messages_in_order', 'a polling sync subscriber received %r, then %r after %.3fs of a 0.05s time-out' % (got_s, none_s, waited_s)))
         return
+    def cross_thread(srv):
+        # an asyncio client waits in a blocking pop on an otherwise idle loop (own thread); a SYNC client of the same server pushes from another thread:
+        # the waiting client is served at once, not when its loop happens to wake up
+        import threading
+        box = {}
+
+        def consumer():
+            lp = asyncio.new_event_loop()
+            try:
+                async def go():
+                    r = far.FakeRedis(server=srv)
+                    t0 = time.time()
+                    box['got'] = await r.blpop('xq', 4)
+                    box['dt'] = time.time() - t0
+                lp.run_until_complete(go())
+            except Exception as e:      # noqa
+                box['got'] = repr(e)
+            finally:
+                lp.close()
+        th = threading.Thread(target=consumer, daemon=True)
+        th.start()
+        time.sleep(0.3)
+        fakeredis.FakeStrictRedis(server=srv).rpush('xq', 'x')
+        th.join(10)
+        return box.get('got'), box.get('dt', 99.0)
+    res.evaluations += 1
+    got_x, dt_x = cross_thread(fakeredis.FakeServer())
+    if got_x != (b'xq', b'x') or dt_x > 2.0:
+        res.add(finding('C14', 'served_as_soon_as_pushed(sync producer thread)', 'asyncio BLPOP xq 4 with a push from a sync client on another thread after 0.3 s returned %r after %.2f s' % (got_x, dt_x)))
+        return
     loop = asyncio.new_event_loop()
     try:
         got = loop.run_until_complete(asyncio.wait_for(burst(fakeredis.FakeServer()), 20))
@@ -640,3 +691,98 @@ def run_C20_lockfree_close(res, tier, seed, t_end):
         if blocked:
             res.add(finding('C20', 'close_is_lock_free', 'FakeSocket.close() of a %s connection blocks while the server lock is held (a GC finaliser inside a command would deadlock)' % mode))
             return
+
+
+def run_reaper_race(res, prop, tier, seed, t_end):
+    """close() is lock-free, so it can land at ANY point of the clean-up of closed sockets that every command runs first (another thread, or a
+    finaliser run by the garbage collector inside that very loop).  The interleaving is produced deterministically: the list of closed sockets is
+    replaced by one that closes a second subscriber at its k-th access.  Whatever k, both closed subscribers must be forgotten after at most one
+    more command."""
+    from fakeredis._fakesocket import FakeSocket
+
+    class RacyList(list):
+        def __init__(self, items, hook):
+            list.__init__(self, items)
+            self.hook, self.n = hook, 0
+
+        def _tick(self):
+            self.n += 1
+            self.hook(self.n)
+
+        def pop(self, *a):
+            self._tick()
+            try:
+                return list.pop(self, *a)
+            finally:
+                self._tick()
+
+        def __iter__(self):
+            self._tick()
+            for x in list(list.__iter__(self)):
+                yield x
+                self._tick()
+            self._tick()
+
+        def clear(self):
+            self._tick()
+            list.clear(self)
+            self._tick()
+
+        def __len__(self):
+            self._tick()
+            return list.__len__(self)
+
+        def __bool__(self):
+            self._tick()
+            return list.__len__(self) > 0
+
+        def copy(self):
+            self._tick()
+            return list(list.__iter__(self))
+
+        def __getitem__(self, i):
+            self._tick()
+            return list.__getitem__(self, i)
+
+    sub = b'*2\r\n$9\r\nsubscribe\r\n$2\r\nch\r\n'
+    ping = b'*1\r\n$4\r\nping\r\n'
+    pub = b'*3\r\n$7\r\npublish\r\n$2\r\nch\r\n$1\r\nm\r\n'
+    for role in ('subscribed', 'watching'):
+        for k in range(1, 13):
+            srv = fakeredis.FakeServer()
+            a, b, p, w = FakeSocket(srv), FakeSocket(srv), FakeSocket(srv), FakeSocket(srv)
+            if role == 'subscribed':
+                a.sendall(sub); b.sendall(sub)
+            else:
+                for s in (a, b):
+                    s.sendall(b'*2\r\n$5\r\nwatch\r\n$1\r\nk\r\n')
+            a.close()
+            fired = []
+
+            def hook(n, k=k, b=b, fired=fired):
+                if n == k and not fired and b._server is not None:
+                    fired.append(n)
+                    b.close()
+            srv.closed_sockets = RacyList(srv.closed_sockets, hook)
+            try:
+                p.sendall(ping)
+                if not fired and b._server is not None:
+                    fired.append(0)
+                    b.close()
+                p.sendall(ping)
+                p.sendall(pub)
+                out = []
+                while not p.responses.empty():
+                    out.append(p.responses.get_nowait())
+                left = sum(len(list(ws)) for ws in list(srv.subscribers.values()) + list(srv.psubscribers.values()))
+                left += sum(len(list(ws)) for db in srv.dbs.values() for ws in db._watches.values())
+                ok = out and out[-1] == 0 and left == 0
+                detail = 'PUBLISH counted %r, %d socket(s) still registered' % (out[-1:] or None, left)
+            except Exception as e:      # noqa
+                ok, detail = False, 'exception %r' % (e,)
+            res.evaluations += 1
+            res.cells.add(('reaper-race', role, bool(fired)))
+            if not ok:
+                res.add(finding(prop, 'closed_socket_forgotten(close lands inside the clean-up)',
+                                '%s connection closed at access %d of the closed-sockets list during the clean-up of another: %s' % (role, k, detail)))
+                return
